@@ -270,3 +270,22 @@ Proof.
   - unfold mu, s_fuel, b_fuel, src_fuel. cbn [fst snd s_data s_script length]. lia.
   - exists s'. refine (eq_trans E _). cbn [app]. now rewrite read_seq_lines_seq_spec.
 Qed.
+
+(* the exactness theorem through every chunked source *)
+Lemma query_exact_any_delivery : forall f recs err r chk s e cap sc,
+  index_file f = (recs, err) -> In r recs -> 1 <= cap ->
+  exists body, record_lines f r body /\
+    let B := naive_bases body in
+    let st := match s with Some p => p | None => 1%N end in
+    let en := match e with Some p => p | None => usize_max end in
+    heads_ok body ->
+    nth (N.to_nat (st - 1)) B 0%N <> CR -> nth (N.to_nat (st - 1)) B 0%N <> GT ->
+    (1 <= st)%N -> (st <= f_len r)%N -> (st <= en)%N ->
+    query_delivered chk cap f sc r s e
+    = (SOk, QOk (firstn (N.to_nat (en - st + 1)) (skipn (N.to_nat (st - 1)) B))).
+Proof.
+  intros f recs err r chk s e cap sc H Hin Hcap.
+  destruct (query_exact_gen f recs err r chk s e H Hin) as [body [Hb Hq]].
+  exists body. split; [exact Hb|]. cbv zeta in *. intros Hh H1 H2 H3 H4 H5.
+  rewrite query_any_delivery by exact Hcap. f_equal. now apply Hq.
+Qed.
